@@ -557,6 +557,25 @@ def check_case(ctx, case):
                 res.ev('metamorphic_' + nm)
             finally:
                 ctx.cleanup_case(r2['dir'])
+        # the input delivered on standard input (-.<ext>): same bytes, same directory; applicable when the input's parents do not come
+        # from its file name (it has a $parent directive, or a two-part name)
+        if len(inputs) == 1 and not case['skipP']:
+            ip = inputs[0]
+            e = files.get(ip) or {}
+            base = posixpath.basename(ip)
+            has_dir = any(isinstance(x, dict) and '$parent' in x for x in e.get('docs', []))
+            if 'link' not in e and not e.get('raw') and base.count('.') >= 1 and base.rsplit('.', 1)[-1] in EXTS and (has_dir or base.count('.') == 1) \
+                    and not any('link' in e2 and real_of(files, q) == ip for q, e2 in files.items()):
+                full = os.path.join(d, ip)
+                data = open(full, 'rb').read()
+                r3 = cli([ctx.bin('bkl'), '-f', 'json', '--', '-.' + base.rsplit('.', 1)[-1]], cwd=os.path.dirname(full), stdin=data)
+                res.execs += 1
+                if crashed(r3.rc, r3.err):
+                    return res.violate('crash', 'bkl crashed reading the input from stdin: rc=%s' % r3.rc, case=case)
+                if r3.rc != 0 or r3.out != run['stdout']:
+                    return res.violate('metamorphic', 'output changes when the input file is delivered on standard input (same bytes, same directory)', case=case,
+                                       first=run['stdout'].decode('utf-8', 'replace'), second=r3.out.decode('utf-8', 'replace'), stderr=r3.err.decode('utf-8', 'replace')[-300:])
+                res.ev('metamorphic_stdin')
     finally:
         ctx.cleanup_case(d)
     return res
